@@ -54,6 +54,15 @@ Theorem wf_check : forall g, rg_wfb g = true <-> rg_wf g.
 Proof. exact RankFacts.rg_wfb_spec. Qed.
 Print Assumptions wf_check.
 
+(* THE compiled order.  [kahn] is a function of the instances in insertion order, their push flags and the
+   rank edges in discovery order - nothing else (no addresses, no hash order): ready lists seeded in
+   insertion order and extended FIFO, push sources served first.  The correspondence requires the
+   implementation's node order to EQUAL it (oracle kind order_not_canonical); that is a strengthening of
+   the validity check, since kahn's order is itself accepted: *)
+Theorem kahn_order_accepted : forall g o, rg_wf g -> kahn g = KOk o -> valid_ranking g o = true.
+Proof. exact RankFacts.kahn_order_accepted. Qed.
+Print Assumptions kahn_order_accepted.
+
 (* --- explicit rank dependencies reach the ranking ---------------------------------------------- *)
 (* The service / adaptor rank contract (register_service_rank_anchor, register_service_client_rank,
    apply_service_rank_dependencies): EVERY registered client — however many share a path and a
